@@ -823,4 +823,254 @@ theorem lp_opt_is_vstar (m : MDP) (rep : Rep) (hrep : RepOK m rep) (hA : 0 < m.A
     have := hterm m.S (le_refl _) hsum s hs
     linarith [hge s hs]
 
+/-! ## PolicyEvaluation -/
+
+theorem peStep_spec (m : MDP) (rep : Rep) (hrep : RepOK m rep) (useTol : Bool) (p : Mat) (st : PEState)
+    (hv : st.v.size = m.S) :
+    (peStep m rep (immRewards m rep) useTol p st).v.size = m.S ∧
+    (∀ s, s < m.S → (peStep m rep (immRewards m rep) useTol p st).v.get s = bellmanPi m p.get st.v.get s) ∧
+    (∀ s a, s < m.S → a < m.A → (peStep m rep (immRewards m rep) useTol p st).q.get s a = qBackup m st.v.get s a) ∧
+    (peStep m rep (immRewards m rep) useTol p st).timestep = st.timestep + 1 ∧
+    (peStep m rep (immRewards m rep) useTol p st).variation =
+      (if useTol then maxAbsDiff m.S (peStep m rep (immRewards m rep) useTol p st).v.get st.v.get else st.variation) := by
+  have hq : ∀ s a, s < m.S → a < m.A →
+      (computeQ m rep (mkVec st.v.size (fun s => st.v.get s * m.γ)) (immRewards m rep)).get s a
+        = qBackup m st.v.get s a := fun s a hs haa => computeQ_discounted m rep hrep st.v hv hs haa
+  refine ⟨by simp [peStep, mkVec_size], ?_, ?_, rfl, rfl⟩
+  · intro s hs
+    simp only [peStep]
+    rw [mkVec_get _ hs]
+    unfold dotTo bellmanPi
+    apply sumTo_congr
+    intro a ha
+    rw [hq s a hs ha]
+  · intro s a hs ha
+    exact hq s a hs ha
+
+theorem evalFrom_shift (m : MDP) (p : Nat → Nat → Rat) (v w : Nat → Rat)
+    (h : ∀ s, s < m.S → w s = bellmanPi m p v s) : ∀ k s, s < m.S → evalFrom m p w k s = evalFrom m p v (k+1) s := by
+  intro k
+  induction k with
+  | zero => intro s hs; simp only [evalFrom]; exact h s hs
+  | succ k ih => intro s hs; simp only [evalFrom] at ih ⊢; exact bellmanPi_congr m p ih s
+
+theorem peLoop_noTol (m : MDP) (rep : Rep) (hrep : RepOK m rep) (tol : Rat) (p : Mat) :
+    ∀ (fuel : Nat) (st : PEState), st.v.size = m.S →
+      (peLoop m rep (immRewards m rep) false tol p fuel st).timestep = st.timestep + fuel ∧
+      ∀ s, s < m.S → (peLoop m rep (immRewards m rep) false tol p fuel st).v.get s = evalFrom m p.get st.v.get fuel s := by
+  intro fuel
+  induction fuel with
+  | zero => intro st _; exact ⟨rfl, fun s _ => rfl⟩
+  | succ fuel ih =>
+    intro st hv
+    obtain ⟨hv', hval, _, hts, _⟩ := peStep_spec m rep hrep false p st hv
+    obtain ⟨i1, i2⟩ := ih _ hv'
+    simp only [peLoop, Bool.false_and, Bool.false_eq_true, if_false]
+    refine ⟨by rw [i1, hts]; omega, ?_⟩
+    intro s hs
+    rw [i2 s hs]
+    exact evalFrom_shift m p.get _ _ hval fuel s hs
+
+/-- **pe_tol0_eq_evalPolicy.**  With a tolerance the library treats as zero and the default start,
+    `PolicyEvaluation(model, h, tol)(π)` returns exactly the h-step value of the stochastic policy π, variation 0. -/
+theorem pe_tol0_eq_evalPolicy (m : MDP) (rep : Rep) (hrep : RepOK m rep) (h : Nat) (tol : Rat)
+    (htol : useTolerance tol = false) (p : Mat) :
+    let out := policyEvaluation m rep h tol none p
+    out.variation = 0 ∧ out.timestep = h ∧ ∀ s, s < m.S → out.v.get s = evalPolicy m p.get h s := by
+  intro out
+  obtain ⟨hts, hval⟩ := peLoop_noTol m rep hrep tol p h ⟨mkVec m.S (fun _ => 0), makeQ m.S m.A, tol * 2, 0⟩ (mkVec_size _ _)
+  refine ⟨by simp [out, policyEvaluation, htol], by simp only [out, policyEvaluation, htol]; rw [hts]; simp, ?_⟩
+  intro s hs
+  simp only [out, policyEvaluation, htol]
+  rw [hval s hs]
+  have hz : ∀ k s, s < m.S → evalFrom m p.get (mkVec m.S (fun _ => 0)).get k s = evalPolicy m p.get k s := by
+    intro k
+    induction k with
+    | zero => intro s hs; simp [evalFrom, evalPolicy, mkVec_get _ hs]
+    | succ k ih => intro s _; simp only [evalFrom, evalPolicy] at ih ⊢; exact bellmanPi_congr m p.get ih s
+  exact hz h s hs
+
+/-- warm start of PolicyEvaluation (how PolicyIteration chains evaluations) -/
+theorem pe_tol0_warm (m : MDP) (rep : Rep) (hrep : RepOK m rep) (h : Nat) (tol : Rat)
+    (htol : useTolerance tol = false) (p : Mat) (w : Vec) (hw : w.size = m.S) :
+    ∀ s, s < m.S → (policyEvaluation m rep h tol (some w) p).v.get s = evalFrom m p.get w.get h s := by
+  intro s hs
+  obtain ⟨_, hval⟩ := peLoop_noTol m rep hrep tol p h ⟨w, makeQ m.S m.A, tol * 2, 0⟩ hw
+  simp only [policyEvaluation, htol, hw, bne_self_eq_false, Bool.false_eq_true, if_false]
+  exact hval s hs
+
+/-! ## PolicyIteration: what a stable greedy policy means -/
+
+/-- rows of a stochastic policy -/
+structure ValidPi (m : MDP) (p : Nat → Nat → Rat) : Prop where
+  nonneg : ∀ s a, 0 ≤ p s a
+  sum_one : ∀ s, s < m.S → sumTo m.A (fun a => p s a) = 1
+
+theorem convex_bounds (n : Nat) (w x : Nat → Rat) (lo hi : Rat) (hw : ∀ a, 0 ≤ w a) (hsum : sumTo n w = 1)
+    (hb : ∀ a, a < n → w a ≠ 0 → lo ≤ x a ∧ x a ≤ hi) : lo ≤ sumTo n (fun a => x a * w a) ∧ sumTo n (fun a => x a * w a) ≤ hi := by
+  have h1 : sumTo n (fun a => lo * w a) ≤ sumTo n (fun a => x a * w a) := by
+    apply sumTo_le
+    intro a ha
+    by_cases h0 : w a = 0
+    · simp [h0]
+    · exact mul_le_mul_of_nonneg_right (hb a ha h0).1 (hw a)
+  have h2 : sumTo n (fun a => x a * w a) ≤ sumTo n (fun a => hi * w a) := by
+    apply sumTo_le
+    intro a ha
+    by_cases h0 : w a = 0
+    · simp [h0]
+    · exact mul_le_mul_of_nonneg_right (hb a ha h0).2 (hw a)
+  rw [sumTo_mul_left, hsum] at h1 h2
+  constructor <;> linarith
+
+/-- **pi_stop_bound.**  Suppose PolicyIteration stops with Q-function `q = R + γ T v'` (the last evaluation sweep started
+    from `v'`), evaluated values `v = π·q` with ‖v − v'‖∞ ≤ ε (the evaluation tolerance), and the policy π it evaluated
+    puts weight only on actions within τ of the row maximum of `q` (stable greedy policy; τ is the tie tolerance).
+    Then `V := max_a q` satisfies the Bellman optimality equation within γ(ε + τ). -/
+theorem pi_stop_bound (m : MDP) (hA : 0 < m.A) (hγ0 : 0 ≤ m.γ) (hT : ValidT m)
+    (p : Nat → Nat → Rat) (hp : ValidPi m p) (v v' : Nat → Rat) (ε τ : Rat)
+    (hv : ∀ s, s < m.S → v s = sumTo m.A (fun a => qBackup m v' s a * p s a))
+    (hε : ∀ s, s < m.S → |v s - v' s| ≤ ε)
+    (hgreedy : ∀ s a, s < m.S → a < m.A → p s a ≠ 0 → bellman m v' s - τ ≤ qBackup m v' s a) :
+    ∀ s, s < m.S → |bellman m (bellman m v') s - bellman m v' s| ≤ m.γ * (ε + τ) := by
+  intro s hs
+  apply bellman_contraction m _ _ _ hγ0 hT
+  intro u hu
+  have hb := convex_bounds m.A (p u) (qBackup m v' u) (bellman m v' u - τ) (bellman m v' u) (hp.nonneg u) (hp.sum_one u hu)
+    (fun a ha h0 => ⟨hgreedy u a hu ha h0, qBackup_le_bellman m hA v' u a ha⟩)
+  rw [← hv u hu] at hb
+  have h1 := hε u hu
+  rw [abs_le] at h1 ⊢
+  constructor <;> linarith [hb.1, hb.2, h1.1, h1.2]
+
+/-- **pi_stable_is_optimal.**  If π is greedy for the Q-function of its own exact value `V` (V = B_π V, π supported on the
+    maximisers of Q^V) then `V` solves the Bellman optimality equation: a stable PolicyIteration round is optimal. -/
+theorem pi_stable_is_optimal (m : MDP) (hA : 0 < m.A) (p : Nat → Nat → Rat) (hp : ValidPi m p) (V : Nat → Rat)
+    (hV : ∀ s, s < m.S → V s = bellmanPi m p V s)
+    (hgreedy : ∀ s a, s < m.S → a < m.A → p s a ≠ 0 → qBackup m V s a = bellman m V s) :
+    IsFixedPoint m V := by
+  intro s hs
+  have hb := convex_bounds m.A (p s) (qBackup m V s) (bellman m V s) (bellman m V s) (hp.nonneg s) (hp.sum_one s hs)
+    (fun a ha h0 => by rw [hgreedy s a hs ha h0]; exact ⟨le_refl _, le_refl _⟩)
+  have : bellmanPi m p V s = bellman m V s := by unfold bellmanPi; linarith [hb.1, hb.2]
+  rw [← this]; exact (hV s hs).symm
+
+/-- the policy matrix PolicyIteration compares is always the greedy policy of the current Q-function -/
+def PIInv (m : MDP) (st : PIState) : Prop := st.matrix = greedyPolicy m.S m.A st.qfun
+
+/-- **structure of a terminating PolicyIteration run**: the returned Q-function is the Q-function of the last evaluation
+    of the greedy policy of the previous Q-function, and its own greedy policy matrix is (entrywise, within
+    equalToleranceSmall) the one that was evaluated. -/
+theorem piLoop_result (m : MDP) (rep : Rep) (horizon : Nat) (tol : Rat) :
+    ∀ (fuel : Nat) (st st' : PIState), PIInv m st → piLoop m rep horizon tol fuel st = some st' →
+      ∃ prev : PIState, PIInv m prev ∧
+        st'.qfun = (policyEvaluation m rep horizon tol prev.vParam (greedyPolicy m.S m.A prev.qfun)).q ∧
+        matDiffers m.S m.A (greedyPolicy m.S m.A prev.qfun) (greedyPolicy m.S m.A st'.qfun) = false := by
+  intro fuel
+  induction fuel with
+  | zero => intro st st' _ h; simp [piLoop] at h
+  | succ fuel ih =>
+    intro st st' hinv h
+    by_cases hd : matDiffers m.S m.A st.matrix
+        (greedyPolicy m.S m.A (policyEvaluation m rep horizon tol st.vParam (greedyPolicy m.S m.A st.qfun)).q) = true
+    · -- policy changed: continue with the new state, whose matrix is the greedy policy of its qfun
+      have e : piRound m rep horizon tol st =
+          (⟨(policyEvaluation m rep horizon tol st.vParam (greedyPolicy m.S m.A st.qfun)).q,
+            greedyPolicy m.S m.A (policyEvaluation m rep horizon tol st.vParam (greedyPolicy m.S m.A st.qfun)).q,
+            some (policyEvaluation m rep horizon tol st.vParam (greedyPolicy m.S m.A st.qfun)).v, st.rounds + 1⟩, true) := by
+        simp only [piRound, piRoundWith, hd, if_true]
+      simp only [piLoop, e, if_true] at h
+      refine ih _ st' ?_ h
+      show _ = _
+      rfl
+    · have hd' : matDiffers m.S m.A st.matrix
+          (greedyPolicy m.S m.A (policyEvaluation m rep horizon tol st.vParam (greedyPolicy m.S m.A st.qfun)).q) = false := by
+        simpa using hd
+      have e : piRound m rep horizon tol st =
+          (⟨(policyEvaluation m rep horizon tol st.vParam (greedyPolicy m.S m.A st.qfun)).q, st.matrix,
+            some (policyEvaluation m rep horizon tol st.vParam (greedyPolicy m.S m.A st.qfun)).v, st.rounds + 1⟩, false) := by
+        simp only [piRound, piRoundWith, hd', Bool.false_eq_true, if_false]
+      simp only [piLoop, e, Bool.false_eq_true, if_false, Option.some.injEq] at h
+      subst h
+      refine ⟨st, hinv, rfl, ?_⟩
+      have hm : st.matrix = greedyPolicy m.S m.A st.qfun := hinv
+      have hd2 := hd'
+      rw [hm] at hd2
+      exact hd2
+
+/-- an action that receives weight from `greedyRow` passed the library's `checkEqualGeneral` test against the scanned maximum -/
+theorem greedyRow_support (A : Nat) (q : Nat → Rat) (a : Nat) (h : greedyRow A q a ≠ 0) :
+    checkEqualGeneral (q a) (greedyScan q (A - 1)).1 = true := by
+  unfold greedyRow at h
+  by_contra hc
+  simp [hc] at h
+
+/-! ## soundness of the checkers the driver evaluates on implementation output -/
+
+theorem allLt_iff (n : Nat) (p : Nat → Bool) : allLt n p = true ↔ ∀ i, i < n → p i = true := by
+  simp [allLt, List.all_eq_true]
+
+theorem checkResidual_sound (m : MDP) (V : Nat → Rat) (r : Rat) (h : checkResidual m V r = true) :
+    ∀ s, s < m.S → |bellman m V s - V s| ≤ r := by
+  intro s hs
+  have := (allLt_iff _ _).mp h s hs
+  simpa [absR_eq] using this
+
+theorem checkLpFeasible_sound (m : MDP) (rep : Rep) (V : Nat → Rat) (δ : Rat) (h : checkLpFeasible m rep V δ = true) :
+    LpFeasible m rep V δ := by
+  intro s a hs ha
+  have h1 := (allLt_iff _ _).mp h s hs
+  have h2 := (allLt_iff _ _).mp h1 a ha
+  simpa using h2
+
+theorem checkGreedy_sound (S A : Nat) (Q : Nat → Nat → Rat) (acts : Nat → Nat) (slack : Rat)
+    (h : checkGreedy S A Q acts slack = true) :
+    ∀ s, s < S → acts s < A ∧ ∀ a, a < A → Q s a ≤ Q s (acts s) + slack := by
+  intro s hs
+  have h1 := (allLt_iff _ _).mp h s hs
+  simp only [Bool.and_eq_true, decide_eq_true_eq] at h1
+  refine ⟨h1.1, fun a ha => ?_⟩
+  have := (allLt_iff _ _).mp h1.2 a ha
+  simpa using this
+
+theorem checkClose_sound (n : Nat) (a b : Nat → Rat) (d : Rat) (h : checkClose n a b d = true) :
+    ∀ s, s < n → |a s - b s| ≤ d := by
+  intro s hs
+  have := (allLt_iff _ _).mp h s hs
+  simpa [absR_eq] using this
+
+/-- **Checker soundness (values).**  If the residual checker accepts an implementation output `V` with bound `r` then `V` is
+    within r/(1−γ) of every solution of the optimality equation; two accepted outputs are within (r₁+r₂)/(1−γ) of each other. -/
+theorem check_sound (m : MDP) (hγ0 : 0 ≤ m.γ) (hγ1 : m.γ < 1) (hT : ValidT m) (V W : Nat → Rat) (rV rW : Rat)
+    (hV : checkResidual m V rV = true) (hW : checkResidual m W rW = true) :
+    (∀ s, s < m.S → |V s - W s| ≤ (rV + rW) / (1 - m.γ)) ∧
+    (∀ Vs, IsFixedPoint m Vs → ∀ s, s < m.S → |V s - Vs s| ≤ rV / (1 - m.γ)) :=
+  ⟨approx_fixed_points_close m hγ0 hγ1 hT V W rV rW (checkResidual_sound m V rV hV) (checkResidual_sound m W rW hW),
+   fun Vs hVs => residual_to_fixed_point m hγ0 hγ1 hT V Vs rV (checkResidual_sound m V rV hV) hVs⟩
+
+/-! ## the hypotheses are satisfiable: a concrete non-trivial MDP (2 states, 2 actions, negative reward, self-loop) -/
+
+def exMDP : MDP :=
+  { S := 2, A := 2, γ := 3/4,
+    T := fun s a s1 => if s = 0 ∧ a = 0 then (if s1 = 0 then 1/2 else if s1 = 1 then 1/2 else 0)
+                       else if s1 = 1 then 1 else 0,
+    R3 := fun s a _ => if s = 0 ∧ a = 0 then -1 else if s = 0 then 1/4 else 0,
+    R := fun s a => if s = 0 ∧ a = 0 then -1 else if s = 0 then 1/4 else 0 }
+
+example : ValidT exMDP := by
+  constructor
+  · intro s a s1; simp only [exMDP]; split <;> (try split) <;> (try split) <;> norm_num
+  · intro s a; simp only [exMDP, sumTo]; split <;> norm_num
+example : Consistent exMDP := by
+  intro s a hs ha
+  have hs' : s = 0 ∨ s = 1 := by simp only [exMDP] at hs; omega
+  have ha' : a = 0 ∨ a = 1 := by simp only [exMDP] at ha; omega
+  rcases hs' with rfl | rfl <;> rcases ha' with rfl | rfl <;> norm_num [exMDP, sumTo]
+example : 0 < exMDP.A ∧ 0 ≤ exMDP.γ ∧ exMDP.γ < 1 := by norm_num [exMDP]
+/-- tolerance 0 disables the stopping rule, 1e-3 enables it (constants from the generated module) -/
+example : useTolerance 0 = false := by
+  norm_num [useTolerance, checkDifferentSmall, checkEqualSmall, absR, AITB.Gen.equalToleranceSmall]
+example : useTolerance (1/1000) = true := by
+  norm_num [useTolerance, checkDifferentSmall, checkEqualSmall, absR, AITB.Gen.equalToleranceSmall]
+
 end AITB.MDP
